@@ -46,6 +46,8 @@ def main():
             )  # fmt: skip
             if seed in job.get("twin_seeds", ()):
                 rec["log"] = r["log"]
+                rec["cfg"] = r["cfg"]
+                rec["steps"] = r["steps"]
             if job.get("sample_steps") and seed in job["sample_steps"]:
                 rec["steps"] = r["steps"]
             v = r["violation"]
